@@ -88,6 +88,11 @@ def check_cm(case):
         obj = _build(case, sc, ec)
         got = obj.cm(thr).matrix
         require(got.shape == shape + (2, 2), "cm:shape", f"{got.shape} for thresholds {shape}")
+        # a threshold sweep: the matrix handed out above is checked *after* the object has answered
+        # another query of the same shape
+        if got.size:
+            with np.errstate(over="ignore", invalid="ignore"):
+                obj.cm(np.flip(np.asarray(thr, dtype=float)) + 0.5)
         gf = got.reshape(-1, 2, 2)
         for i, t in enumerate(flat):
             ref = ref_cm(pos, neg, t, sc, ec, ep, en)
@@ -128,7 +133,7 @@ def check_cm(case):
 def _pw_cases(draw):
     s = draw(gen.score_sets(max_size=8, mag=1e300, easy=False))
     thr = draw(gen.shaped_thresholds(s["pos"] + s["neg"], shapes=gen.SHAPES_NONEMPTY, mag=1e300))
-    lab = draw(st.sampled_from(["int", "str", "bool"]))
+    lab = draw(st.sampled_from(["int", "str", "bool", "boolF", "bool0", "int52", "float"]))
     return dict(s=s, thr=thr, lab=lab, order=draw(st.integers(0, 10**6)),
                 layout=draw(st.sampled_from(["1d", "1d", "2d-C", "2d-F-scores", "2d-F-labels", "2d-T-scores", "2d-F-both"])))
 
@@ -143,7 +148,10 @@ def check_pointwise(case):
     flat = case["thr"]["flat"]
     thr = gen.np_array(flat, shape)
     pl, nl, kw = {"int": (1, 0, {}), "str": ("y", "n", dict(pos_label="y")),
-                  "bool": (True, False, dict(pos_label=True))}[case["lab"]]
+                  "bool": (True, False, dict(pos_label=True)),
+                  # the positive label is whatever the caller says it is
+                  "boolF": (False, True, dict(pos_label=False)), "bool0": (False, True, dict(pos_label=0)),
+                  "int52": (5, 2, dict(pos_label=5)), "float": (0.0, 1.0, dict(pos_label=0.0))}[case["lab"]]
     labels = [pl] * n + [nl] * m
     scores = list(pos) + list(neg)
     order = np.random.RandomState(case["order"]).permutation(n + m)
